@@ -47,12 +47,18 @@ const (
 	akNilBig    // typed nil *decimal.Big
 	akIfStruct  // struct whose interface field holds a slice (comparable type, uncomparable value)
 	akInts      // Go []int
+	akNestBox   // struct whose nested struct's interface field holds a map
 	akKinds
 )
 
 type vpBoxed struct {
 	ID  int
 	Box interface{}
+}
+
+type vpOuterBox struct {
+	ID    int
+	Inner vpBoxed
 }
 
 type vpTagged struct {
@@ -112,6 +118,8 @@ func vpArgValue(i int) interface{} {
 		return vpBoxed{ID: 1, Box: []int{1}}
 	case akInts:
 		return []int{7}
+	case akNestBox:
+		return vpOuterBox{ID: 2, Inner: vpBoxed{ID: 3, Box: map[string]interface{}{"k": 1}}}
 	}
 	return nil
 }
